@@ -12,6 +12,8 @@ HARNESSES = [
     dict(name="c17a", kind="asan", srcs=["harness/c17/c17a_serialize.cpp"]),
     dict(name="c17afz", kind="fuzz", srcs=["harness/c17/c17a_serialize.cpp"], defs=["-DVERIF_LIBFUZZER"]),
     dict(name="c09", kind="asan", srcs=["harness/c09/c09_alloc.cpp"]),
+    dict(name="c11", kind="asan", srcs=["harness/c11/c11_graphs.cpp", "harness/c11/c11_graphs_b.cpp", "harness/c11/c11_graphs_c.cpp"]),
+    dict(name="c11fz", kind="fuzz", srcs=["harness/c11/c11_graphs.cpp", "harness/c11/c11_graphs_b.cpp", "harness/c11/c11_graphs_c.cpp"], defs=["-DVERIF_LIBFUZZER"]),
     dict(name="c12a", kind="asan", srcs=["harness/c12/c12a_filegraph.cpp"]),
     dict(name="c12afz", kind="fuzz", srcs=["harness/c12/c12a_filegraph.cpp"], defs=["-DVERIF_LIBFUZZER"]),
     dict(name="c14b", kind="asan", srcs=["harness/c14/c14b_assoc.cpp"]),
@@ -203,6 +205,26 @@ PROPS = {
         level_note="trusted: the reference model; Morph_SepInOut_Graph and MorphHyperGraph are not instantiated; self loops are not generated (an undirected self loop is stored as two entries)",
         assumptions=["operators are cautious: every node used is touched with getData(n, WRITE) (and scans iterate edges) before the commit point",
                      "removed nodes are never re-added; parallel edges of one pair carry equal data; where the implementation may legally pick either of several parallel edges the case is marked ambiguous and only structure is compared"],
+    ),
+    "C11": dict(
+        variants={"fuzz": ["galois_shmem"]},
+        units=[dict(type="rc", harness="c11", quick=24000, thorough=360000, workers=4),
+               dict(type="fuzz", harness="c11fz", quick=24000, thorough=360000, workers=4, max_len=300)],
+        engine="rapidcheck (in-process, real threads, ASan+UBSan) + libFuzzer",
+        technique="property-based testing: rapidcheck-generated graphs (edge list in the case tail, written to .gr by the harness' own writer), edge-data types, 17 layout/construction kinds, option combinations, 1..16 construction threads on a 2x8 synthetic topology and a script of derived operations; oracle = reference adjacency lists built from the case, compared with a complete enumeration through the public graph API; libFuzzer explores the same decoder coverage-guided on graphs up to 64 nodes",
+        rule=("cases = (layout/construction kind, edge data void|uint32|int64|float|12-byte struct, option bits (NUMA blocked/interleaved, "
+              "no-lockable, out-of-line locks, ids, file edge type ...), threads 1..16, node count 0..3000, data mode, up to four derived "
+              "operations, edge triples); non-trivial = some node has >=2 out-edges AND (parallel edges, or a self loop, or an isolated "
+              "last node, or >=2 construction threads); distinct = hash of the case"),
+        level_text=("After construction: node count, edge count, per-node out-edges with destination and data (file order for the CSR "
+                    "layouts, multiset for the others), degree, getEdgeData by value and reference; then the scripted derived operations "
+                    "(in-edges of CSR+CSC / in-out graphs, in-place transpose, sortEdgesByDst / by data / sortAllEdgesByDst, in-edge sorting, "
+                    "findEdge, findEdgeSortedByDst, findInEdge, second constructFrom on the same object, per-thread local ranges) are "
+                    "compared with the model: permutations of the same multiset, exact membership answers, ranges that partition the nodes. "
+                    "Construction interleavings are sampled with real threads, not controlled. Exploration only."),
+        level_note="trusted: the harness' .gr writer (harness/common/grfile.h, independent of the library) and the adjacency-list model; real threads (no schedule control) with a schedule-independent oracle",
+        assumptions=["graphs up to 3000 nodes / 20000 edges", "constructFrom(arrays) cannot carry void edge data (no such container type): those kinds use uint32",
+                     "LC_InOut_Graph over LC_Linear_Graph is built for void and uint32 edge data only"],
     ),
     "C12": dict(
         variants={"native": ["galois_shmem", "graph-convert"], "fuzz": ["galois_shmem"]},
